@@ -68,10 +68,17 @@ def plain_ops(ops):
     return [[o[0], list(o[1])] + ([list(o[2])] if len(o) > 2 and o[2] else []) for o in ops]
 
 
-def build_circuit(n, ops):
-    """QuantumCircuit from plain ops (name, qubits[, params]) over the documented vocabulary."""
+def build_circuit(n, ops, registers=None, metadata=None):
+    """QuantumCircuit from plain ops (name, qubits[, params]) over the documented vocabulary.  `registers` = list of register
+    sizes summing to n (qubit indices in ops stay circuit-wide indices); `metadata` = dict put on the circuit."""
     L = lib()
-    qc = L.QuantumCircuit(n)
+    if registers and len(registers) > 1 and sum(registers) == n:
+        from qiskit import QuantumRegister
+        qc = L.QuantumCircuit(*[QuantumRegister(sz, f"r{i}") for i, sz in enumerate(registers)])
+    else:
+        qc = L.QuantumCircuit(n)
+    if metadata is not None:
+        qc.metadata = dict(metadata)
     for op in ops:
         name, qs = op[0], tuple(op[1])
         params = tuple(op[2]) if len(op) > 2 and op[2] else ()
